@@ -892,7 +892,8 @@ Lemma rrel_enter h zs0 C g p q' last f' gf' :
   pl_ok zs0 p last -> (forall fp zr, zs0 = fp :: zr -> t_ok zr g) -> dirs_ok kn zs0 -> sortedb (bkeys (plug zs0 C)) = true ->
   fstate zs0 C f' gf' ->
   let '(h', p') := hrm_proc h g p q' last (key h q' <? key h node) in
-  Rrel h' (rproc kn zs0 C) p' q' (key h q' <? key h node) f' gf'.
+  Rrel h' (rproc kn zs0 C) p' q' (key h q' <? key h node) f' gf' /\
+  (forall i, ~ In i (bids (plug zs0 C)) -> i <> HEAD -> hget h' i = hget h i).
 Proof.
   intros Hhl Hkn Hin Hz Hr HC Hy Hp Hg D Hs Hf.
   assert (Ekq : key h q' = bkey C).
@@ -904,6 +905,7 @@ Proof.
   destruct HS as (zs' & F' & Ep & Z' & R' & Y' & HL' & Epp & Fr). rewrite Ep.
   destruct (rproc_shape kn zs0 C) as (zs'' & F'' & Ep' & _ & Ei). rewrite Ep in Ep'. injection Ep' as <- <-.
   destruct (rproc_next kn _ _ _ _ Ep) as (_ & Ek & _).
+  split; [|exact Fr].
   split; [exact HL'|]. split; [rewrite HK; exact Hkn|]. split; [cbn [whole]; rewrite Ei; exact Hin|].
   assert (Hq0 : q' <> 0) by (intros E0; apply HC; apply (rep_leaf_iff _ _ _ Hr); exact E0).
   split; [intros ->; apply Hq0; exact R'|]. split; [apply (rep_bid _ _ _ R')|]. split; [exact Z'|]. split; [exact R'|]. split; [exact Y'|].
@@ -923,7 +925,8 @@ Lemma rrel_step h s p q dir f gf : RAll kn s -> Rrel h s p q dir f gf ->
       let q' := child h q dir in let dir' := key h q' <? key h node in
       let fgf := if q' =? node then (q', p) else (f, gf) in
       let '(h', p') := hrm_proc h p q q' dir dir' in
-      Rrel h' s' p' q' dir' (fst fgf) (snd fgf)
+      Rrel h' s' p' q' dir' (fst fgf) (snd fgf) /\
+      (forall i, ~ In i (bids (whole s)) -> i <> HEAD -> hget h' i = hget h i)
   end.
 Proof.
   intros (I & Hs & D) (Hhl & Hkn & Hin & R). unfold rstep. destruct s as [T|zs F]; cbn [rdown whole] in *.
@@ -958,6 +961,7 @@ Proof.
     set (fq := mkf d q c k (if d then a else b)).
     assert (Epl : plug (fq :: zs) (BN xa xq xc xk xb) = plug zs (BN a q c k b)).
     { cbn [plug]. rewrite <- EX. unfold fq. rewrite <- (BN_as_fill a q c k b d). reflexivity. }
+    cbn [whole]. rewrite <- Epl.
     apply (rrel_enter h (fq :: zs) (BN xa xq xc xk xb) (pl_id zs) q xq d).
     + exact Hhl.
     + exact Hkn.
@@ -990,19 +994,20 @@ Theorem remove_loop_sim : forall fuel s h g p q dir f gf,
   exists e h' g' p' q' f' gf' dir',
     rloop kn fuel s = Some e /\ remove_loop fuel h node g p q f gf dir = (h', (g', p', q', f', gf')) /\
     Rrel h' e p' q' dir' f' gf' /\ RAll kn e /\ rstep kn e = None /\
-    bkeys (whole e) = bkeys (whole s) /\ bids (whole e) = bids (whole s).
+    bkeys (whole e) = bkeys (whole s) /\ bids (whole e) = bids (whole s) /\
+    (forall i, ~ In i (bids (whole s)) -> i <> HEAD -> hget h' i = hget h i).
 Proof.
   induction fuel as [|fu IH]; intros s h g p q dir f gf A R Hm; [lia|].
   rewrite remove_loop_S. cbn [rloop]. pose proof (rrel_step h s p q dir f gf A R) as HS.
   destruct (rstep kn s) as [s'|] eqn:Es.
   - destruct HS as [Hne HS]. destruct (Z.eqb_spec (child h q dir) 0) as [E0|_]; [contradiction|]. cbn zeta in *.
-    destruct (hrm_proc h p q (child h q dir) dir (key h (child h q dir) <? key h node)) as [h1 p1].
+    destruct (hrm_proc h p q (child h q dir) dir (key h (child h q dir) <? key h node)) as [h1 p1]. destruct HS as [HS Hfr1].
     destruct (rstep_all kn _ _ A Es) as (A' & Ek & Ei & Hm').
-    destruct (IH s' h1 p p1 (child h q dir) _ _ _ A' HS ltac:(lia)) as (e & h' & g' & p' & q' & f' & gf' & dir' & E1 & E2 & R' & Ae & Hn & Ek' & Ei').
+    destruct (IH s' h1 p p1 (child h q dir) _ _ _ A' HS ltac:(lia)) as (e & h' & g' & p' & q' & f' & gf' & dir' & E1 & E2 & R' & Ae & Hn & Ek' & Ei' & Hfr2).
     exists e, h', g', p', q', f', gf', dir'. split; [exact E1|]. split; [exact E2|]. split; [exact R'|]. split; [exact Ae|]. split; [exact Hn|].
-    split; congruence.
+    split; [congruence|]. split; [congruence|]. intros i Hi Hh. rewrite Hfr2; [apply Hfr1; assumption|rewrite Ei; exact Hi|exact Hh].
   - rewrite HS, Z.eqb_refl. exists s, h, g, p, q, f, gf, dir. split; [reflexivity|]. split; [reflexivity|]. split; [exact R|]. split; [exact A|].
-    split; [exact Es|]. split; reflexivity.
+    split; [exact Es|]. split; [reflexivity|]. split; [reflexivity|]. intros; reflexivity.
 Qed.
 End RSim.
 
@@ -1239,7 +1244,9 @@ Lemma tree_remove_finish fuel h1 zs q c k p dir f gf :
             else let n := if gf =? 0 then HEAD else gf in
                  relink_loop fuel h2 node n q f (if n =? HEAD then true else key h2 n <? key h2 node) in
   let W := if k =? kn then plug zs BL else plug (zrename kn q k zs) BL in
-  rep h3 (child h3 HEAD true) W /\ NoDup (bids W) /\ (forall i, In i (bids W) -> 1 < i).
+  rep h3 (child h3 HEAD true) W /\ NoDup (bids W) /\ (forall i, In i (bids W) -> 1 < i) /\
+  (forall i, In i (bids W) -> In i (bids (plug zs F))) /\
+  (forall i, ~ In i (bids (plug zs F)) -> i <> HEAD -> hget h3 i = hget h1 i).
 Proof.
   intros F (I & Hs & D) (Hhl & Hkn & Hin & HF & _ & Hz & Hr & Hy & -> & _ & Hf) Hlen. cbn [whole] in Hs, Hin.
   pose proof Hr as Hr0. unfold F in Hr0. cbn [rep] in Hr0. destruct Hr0 as (_ & Hq0 & _ & Hkq & Hl & Hrr).
@@ -1256,13 +1263,16 @@ Proof.
   assert (HsW : sortedb (bkeys (plug zs F)) = true) by exact Hs.
   rewrite plug_keys in Hs, HknW. unfold F in Hs, HknW. cbn [bkeys app] in Hs, HknW.
   destruct (ctx_bounds_weak kn zs [k] D Hs) as [BL' BR].
+  assert (Hfr2 : forall i, ~ In i (bids (plug zs F)) -> i <> HEAD -> hget h2 i = hget h1 i).
+  { intros i Hi Hh. apply Z2. intros Eq. destruct (pl_id_zids zs) as [E|E]; [congruence|]. apply Hi. apply in_plug_ids. left. rewrite Eq. exact E. }
   destruct (Z.eqb_spec k kn) as [Ek|Ek].
   - (* the bottom node is the found node *)
     assert (Eqn : q = node) by (apply (rep_key_inj h1 _ _ q node HrW HsW HqW Hin); congruence).
     assert (Ef : f = q).
     { destruct Hf as [[_ Hn]|(-> & _)]; [exfalso; apply Hn; left; cbn [bkey]; exact Ek|symmetry; exact Eqn]. }
     rewrite Ef, Z.eqb_refl. split; [apply (rep_plug h2 zs 0 BL Z1); reflexivity|]. destruct HyL as [N P]. split; [exact N|].
-    rewrite Forall_forall in P. intros i Hi. apply P. exact Hi.
+    split; [rewrite Forall_forall in P; intros i Hi; apply P; exact Hi|].
+    split; [intros i Hi; apply in_plug_ids in Hi; apply in_plug_ids; destruct Hi as [Hi|[]]; left; exact Hi|exact Hfr2].
   - (* q takes the place of the found node *)
     assert (Hinr : In kn (rctx zs)).
     { apply in_app_or in HknW. destruct HknW as [H|[H|H]]; [specialize (BL' _ H); lia|congruence|exact H]. }
@@ -1341,7 +1351,14 @@ Proof.
     split.
     + change (lidx zs ++ q :: i0 :: I') with (lidx zs ++ [q] ++ i0 :: I') in N. rewrite app_assoc in N. apply NoDup_remove_1 in N.
       rewrite <- app_assoc in N. exact N.
-    + rewrite Forall_forall in P. intros j Hj. apply P. apply in_app_or in Hj. apply in_or_app. destruct Hj as [Hj|[Hj|Hj]]; [left; exact Hj|right; left; exact Hj|right; right; right; exact Hj].
+    + assert (Hsub : forall j, In j (lidx zs ++ q :: I') -> In j (lidx zs ++ q :: i0 :: I')).
+      { intros j Hj. apply in_app_or in Hj. apply in_or_app. destruct Hj as [Hj|[Hj|Hj]]; [left; exact Hj|right; left; exact Hj|right; right; right; exact Hj]. }
+      split; [rewrite Forall_forall in P; intros j Hj; apply P; apply Hsub; exact Hj|].
+      split; [intros j Hj; rewrite plug_ids; unfold F; cbn [bids app]; rewrite I4; apply Hsub; exact Hj|].
+      intros j Hj Hh. unfold h3. rewrite E2.
+      * apply Hfr2; assumption.
+      * intros ->. apply Hj. exact HqW.
+      * intros Eq. destruct (pl_id_zids za) as [E|E]; [congruence|]. apply Hj. apply in_plug_ids. left. rewrite Ezs. apply zids_app. right. apply in_zids_cons. left. rewrite Eq. exact E.
 Qed.
 End Finish.
 
@@ -1351,7 +1368,9 @@ Theorem tree_remove_refines_f fuel t T b node :
   bbh T = Some b -> sortedb (bkeys T) = true -> (2 * bheight T + 2 < fuel)%nat ->
   let kn := key (heap t) node in
   let t' := tree_remove_f fuel t node in
-  exists R, zremove kn fuel T = Some R /\ rep (heap t') (root t') R /\ NoDup (bids R) /\ (forall i, In i (bids R) -> 1 < i).
+  exists R, zremove kn fuel T = Some R /\ rep (heap t') (root t') R /\ NoDup (bids R) /\ (forall i, In i (bids R) -> 1 < i) /\
+    (forall i, In i (bids R) -> In i (bids T)) /\
+    (forall i, ~ In i (bids T) -> i <> HEAD -> hget (heap t') i = hget (heap t) i).
 Proof.
   intros Hr Hnd Hpos Hin Hb Hs Hh kn. cbn zeta. unfold tree_remove_f.
   set (h0 := hset (heap t) HEAD (mktn 0 (root t) false 0)).
@@ -1366,14 +1385,14 @@ Proof.
       apply (rep_frame (heap t)); [|exact Hr]. intros i Hi. apply Ho0. specialize (Hpos _ Hi). unfold HEAD. lia.
     - split; [|split; reflexivity]. split; [exact Hnd|]. apply Forall_forall. intros i Hi. specialize (Hpos _ Hi). split; lia. }
   destruct (remove_loop_sim node kn fuel (AtHead T) h0 0 0 HEAD true 0 0 A R0 ltac:(cbn [rmeasure]; lia))
-    as (e & h1 & g & p & q & f & gf & dir' & E1 & E2 & R' & Ae & Hn & Ek & Ei).
+    as (e & h1 & g & p & q & f & gf & dir' & E1 & E2 & R' & Ae & Hn & Ek & Ei & Hfrl). cbn [whole] in Hfrl.
   rewrite E2. pose proof (rloop_len kn fuel _ _ A E1) as Hlen. cbn [rplen rmeasure] in Hlen.
   destruct e as [T'|zs F].
   { exfalso. unfold rstep in Hn. cbn [rdown whole] in *. destruct T'; [rewrite <- Ei in Hin; exact Hin|discriminate]. }
   destruct (end_leaf kn zs F (proj1 Ae) Hn) as (q' & c & k & EF & _). subst F.
   assert (Eq : q = q') by (destruct R' as (_ & _ & _ & _ & Eq & _); exact Eq). subst q'.
   assert (Hl : (length zs < fuel)%nat) by (cbn [rplen] in Hlen; lia).
-  destruct (tree_remove_finish node kn fuel h1 zs q c k p dir' f gf Ae R' Hl) as (F1 & F2 & F3). cbn zeta in F1, F2, F3.
+  destruct (tree_remove_finish node kn fuel h1 zs q c k p dir' f gf Ae R' Hl) as (F1 & F2 & F3 & F4 & F5). cbn zeta in F1, F2, F3, F4, F5.
   set (h2 := set_child h1 p (child h1 p true =? q) (child h1 q (child h1 q false =? 0))) in *.
   set (h3 := if f =? q then h2
              else relink_loop fuel h2 node (if gf =? 0 then HEAD else gf) q f
@@ -1381,7 +1400,14 @@ Proof.
   set (W := if k =? kn then plug zs BL else plug (zrename kn q k zs) BL) in *.
   exists (blacken W). split; [unfold zremove; rewrite E1; reflexivity|].
   destruct (blacken_keys W) as [_ Eb]. rewrite Eb. cbn [heap root].
-  split; [|split; [exact F2|exact F3]].
+  cbn [whole] in Ei.
+  assert (Hsub : forall i, In i (bids W) -> In i (bids T)) by (intros i Hi; rewrite <- Ei; apply F4; exact Hi).
+  assert (Hfrall : forall i, ~ In i (bids T) -> i <> HEAD -> hget h3 i = hget (heap t) i).
+  { intros i Hi Hhd. rewrite F5; [|rewrite Ei; exact Hi|exact Hhd]. rewrite Hfrl by assumption. apply Ho0. exact Hhd. }
+  split; [|split; [exact F2|split; [exact F3|split; [exact Hsub|]]]].
+  2:{ intros i Hi Hhd. destruct (Z.eqb_spec (child h3 HEAD true) 0) as [E0|E0]; [apply Hfrall; assumption|].
+      rewrite hget_set_red_other; [apply Hfrall; assumption|]. intros ->. apply Hi. apply Hsub. rewrite (rep_bid _ _ _ F1). apply bid_in.
+      intros EW. apply E0. apply (rep_leaf_iff _ _ _ F1). exact EW. }
   destruct (Z.eqb_spec (child h3 HEAD true) 0) as [E0|E0].
   - assert (EW : W = BL) by (apply (rep_leaf_iff _ _ _ F1); exact E0). rewrite EW in *. rewrite E0 in *. cbn [blacken]. exact F1.
   - assert (HW : W <> BL) by (intros EW; apply E0; apply (rep_leaf_iff _ _ _ F1); exact EW).
@@ -1396,7 +1422,9 @@ Theorem tree_remove_refines t T b node :
   bbh T = Some b -> sortedb (bkeys T) = true -> (bheight T < 98)%nat ->
   let kn := key (heap t) node in
   let t' := tree_remove t node in
-  exists R, zremove kn 200 T = Some R /\ rep (heap t') (root t') R /\ NoDup (bids R) /\ (forall i, In i (bids R) -> 1 < i).
+  exists R, zremove kn 200 T = Some R /\ rep (heap t') (root t') R /\ NoDup (bids R) /\ (forall i, In i (bids R) -> 1 < i) /\
+    (forall i, In i (bids R) -> In i (bids T)) /\
+    (forall i, ~ In i (bids T) -> i <> HEAD -> hget (heap t') i = hget (heap t) i).
 Proof. intros Hr Hnd Hpos Hin Hb Hs Hh. apply (tree_remove_refines_f 200 t T b node); try assumption. lia. Qed.
 
 
@@ -1440,7 +1468,7 @@ Theorem tree_remove_unbounded t T b node :
     NoDup (bids R).
 Proof.
   intros Hr Hnd Hpos Hin Hb Hs Hh kn. cbn zeta.
-  destruct (tree_remove_refines t T b node Hr Hnd Hpos Hin Hb Hs Hh) as (R & HZ & HR & NR & PR). cbn zeta in HZ, HR. fold kn in HZ.
+  destruct (tree_remove_refines t T b node Hr Hnd Hpos Hin Hb Hs Hh) as (R & HZ & HR & NR & PR & _ & _). cbn zeta in HZ, HR. fold kn in HZ.
   assert (Hkin : In kn (bkeys T)) by (apply (rep_key_in (heap t) T (root t) node Hr Hin)).
   destruct (zremove_correct kn 200 T b Hb Hs Hkin ltac:(lia)) as (R2 & HZ2 & (b' & Hb') & Hbr & L & Rr & E1 & E2 & HsR).
   rewrite HZ in HZ2. injection HZ2 as <-.
@@ -1475,16 +1503,18 @@ Theorem tree_remove_any_height fuel t T b node :
     (forall k, lookup R k <> 0 <-> In k (bkeys R)) /\
     (forall f', (bheight R < f')%nat ->
        (forall k, get_loop f' (heap t') (root t') k = lookup R k) /\ inorder f' (heap t') (root t') = bflat R) /\
-    NoDup (bids R).
+    NoDup (bids R) /\ (forall i, In i (bids R) -> In i (bids T)) /\
+    (* nothing else in the heap is touched *)
+    (forall i, ~ In i (bids T) -> i <> HEAD -> hget (heap t') i = hget (heap t) i).
 Proof.
   intros Hr Hnd Hpos Hin Hb Hs Hh kn. cbn zeta.
-  destruct (tree_remove_refines_f fuel t T b node Hr Hnd Hpos Hin Hb Hs Hh) as (R & HZ & HR & NR & PR). cbn zeta in HZ, HR. fold kn in HZ.
+  destruct (tree_remove_refines_f fuel t T b node Hr Hnd Hpos Hin Hb Hs Hh) as (R & HZ & HR & NR & PR & Hsub & Hframe). cbn zeta in HZ, HR, Hframe. fold kn in HZ.
   assert (Hkin : In kn (bkeys T)) by (apply (rep_key_in (heap t) T (root t) node Hr Hin)).
   destruct (zremove_correct kn fuel T b Hb Hs Hkin ltac:(lia)) as (R2 & HZ2 & (b' & Hb') & Hbr & L & Rr & E1 & E2 & HsR).
   rewrite HZ in HZ2. injection HZ2 as <-.
   destruct (bbh_height R b' Hb') as [Hb1 HhR]. rewrite Hbr in HhR.
   assert (Hnz : ids_nonzero R = true) by (apply ids_nonzero_of; intros i Hi; specialize (PR i Hi); lia).
   exists R, b'. split; [exact HR|]. split; [exact Hbr|]. split; [exact Hb'|]. split; [lia|]. split; [exact HsR|].
-  split; [exists L, Rr; split; assumption|]. split; [intros k; apply lookup_member; assumption|]. split; [|exact NR].
+  split; [exists L, Rr; split; assumption|]. split; [intros k; apply lookup_member; assumption|]. split; [|split; [exact NR|split; [exact Hsub|exact Hframe]]].
   intros f' Hf'. split; [intros k; apply get_loop_rep; assumption|apply inorder_rep; assumption].
 Qed.
